@@ -38,6 +38,22 @@ fn check_routing_rules(context: &CheckerContext) -> GenericResult<()> {
                 .unwrap_or_else(|| &first_stop.schedule().departure),
         ) as i64;
 
+        // NOTE: vehicle is at the first stop from the start of departure activity, nothing is travelled yet
+        let first_arrival = first_activity
+            .time
+            .as_ref()
+            .map(|interval| &interval.start)
+            .unwrap_or_else(|| &first_stop.schedule().arrival);
+        check_stop_statistic(
+            parse_time(first_arrival) as i64,
+            0,
+            first_stop.schedule(),
+            first_stop.as_point().map_or(0, |stop| stop.distance),
+            0,
+            tour,
+            skip_distance_check,
+        )?;
+
         let (departure_time, total_distance) = tour.stops.windows(2).enumerate().try_fold::<_, _, GenericResult<_>>(
             (parse_time(&first_stop.schedule().departure) as i64, 0),
             |(arrival_time, total_distance), (leg_idx, stops)| {
